@@ -9,7 +9,8 @@ import (
 )
 
 func (p *printer) declStructType(s *ast.TypeSpec) {
-	p.print(s.Pos(), token.Zh_结构, token.K_点)
+	// the keyword sits at the type's position; s.Pos() is the position of the name that follows it
+	p.print(s.Type.Pos(), token.Zh_结构, token.K_点)
 	p.setComment(s.Doc)
 	p.expr(s.Name)
 	p.struct_exprTypeSpec(s.Type.(*ast.StructType))
